@@ -318,6 +318,8 @@ def scenarios(tier):
     ('path deleted while 3 members are cached, leave callbacks raise',
      {'initial': [M0, M1, M2], 'script': [['delete', M0], ['delete', M1], ['delete', M2], ['delete_parent'], ['create_parent'], ['create', M1]],
       'raise_on': [4, 5]}),
+    ('a listed member vanishes before it is read, then the path is deleted and re-created with the same member name',
+     {'script': [['create', M0], ['delete', M0], ['delete_parent'], ['create_parent'], ['create', M0]], '_bound': 4}),
     ('second reader lists members concurrently', {'initial': [M0], 'script': [['read'], ['create', M1], ['delete', M0], ['read'], ['create', M0]]}),
   ]
   if tier == 'thorough':
@@ -332,8 +334,9 @@ def main(tier, seed):
   bound = 3 if tier == 'quick' else 4
   try:
     for name, params in scenarios(tier):
-      agg = explore.explore('vt.checks.c19', 'run_exec', params, bound, seed=seed, pool=pool, split_levels=1 if bound <= 2 else 2)
-      rep.add_explore(name, agg, bound, params=params)
+      b = max(bound, params.pop('_bound', 0))
+      agg = explore.explore('vt.checks.c19', 'run_exec', params, b, seed=seed, pool=pool, split_levels=1 if b <= 2 else 2)
+      rep.add_explore(name, agg, b, params=params)
   finally:
     pool.close()
     pool.join()
